@@ -223,14 +223,27 @@ def check(ctx):
         if k not in vs.violations:
             for lab in labels:
                 ctx.known(c.kf_text("C16", lab))
-    for name, v, cases, mod in (("library", vl, lib_cases, "StreamIndexTrace"), ("server", vs, srv_cases, "StreamTrace")):
+    log_events = {}
+    for n, line in enumerate(open(trace_srv), 1):
+        if not line.startswith('{"ev":"log"'):
+            break
+        log_events[n] = json.loads(line)
+    for name, v, cases, mod, consts in (("library", vl, lib_cases, "StreamIndexTrace.tla", {}), ("server", vs, srv_cases, "StreamTrace.tla", dict(sw))):
         rej = {r[0]: r for r in v.rejected}
+        ctx.replay_module = (mod, consts)
         for k in sorted(v.violations):
             r = rej.get(k)
+            tr = cases.get(k)
+            if name == "server" and tr:      # self-contained replay trace: the log event first, the case refers to line 1
+                tr = json.loads(json.dumps(tr))
+                lg = log_events.get(tr[0]["hdr"]["logline"])
+                tr[0]["hdr"]["logline"] = 1
+                tr = [lg] + tr
             ctx.violation("%s case %d rejected by %s at line %s: %s" % (name, k, mod, r[1] if r else "?", r[2] if r else "unfinished"),
-                          {"layer": name, "case": k, "trace": cases.get(k), "first_unmatched": r[2] if r else None,
+                          {"layer": name, "case": k, "trace": tr, "first_unmatched": r[2] if r else None,
                            "server_panics": si["panics"],
-                           "how": "bin/check C16 %s with VERIF_SEED=%d (the log files are regenerated under work/C16/files)" % (ctx.tier, ctx.seed)})
+                           "how": "bin/check C16 --replay <this file> re-validates the recorded session; re-run with VERIF_SEED=%d bin/check C16 %s "
+                                  "(the log files are regenerated under work/C16/files)" % (ctx.seed, ctx.tier)})
     if not ctx.violations:          # tool-level sanity only when there is no verdict to report (never masks a violation)
         if missing:
             raise c.ToolError("vacuity: paths never hit: %s" % missing)
